@@ -558,3 +558,29 @@ def root_name(expr) -> Optional[str]:
 
 def call_name(call: ast.Call) -> Optional[str]:
   return dotted(call.func)
+
+
+def norm_text(f, expr, limit: int = 70) -> str:
+  """Source text of `expr` with the function's own local variables (not its
+
+  parameters) replaced by <v1>, <v2>, ... in order of first appearance, so
+  that construct keys survive a renaming of locals.
+  """
+  import copy
+  e = copy.deepcopy(expr)
+  locs = set()
+  if f is not None and hasattr(f, 'local_names'):
+    locs = set(f.local_names()) - set(f.params)
+  mapping = {}
+  names = [n for n in ast.walk(e) if isinstance(n, ast.Name)]
+  names.sort(key=lambda n: (getattr(n, 'lineno', 0), getattr(n, 'col_offset', 0)))
+  for n in names:
+    if n.id in locs:
+      if n.id not in mapping:
+        mapping[n.id] = f'__v{len(mapping) + 1}__'
+      n.id = mapping[n.id]
+  txt = unparse(e)
+  for i in range(len(mapping), 0, -1):
+    txt = txt.replace(f'__v{i}__', f'<v{i}>')
+  return txt[:limit]
+
